@@ -105,6 +105,13 @@ where
 
     let mut stats = DelaunayRepairStats::default();
     let mut diagnostics = RepairDiagnostics::default();
+    #[cfg(delaunay_verif)]
+    {
+        crate::verif::tick::tick("repair.attempt");
+        if crate::verif::fail::hit("repair.attempt.nonconvergent") {
+            return Err(non_convergent_error(max_flips, &stats, &diagnostics, config));
+        }
+    }
     let mut queues = RepairQueues::new();
     let mut last_applied_flip: Option<LastAppliedFlip> = None;
     seed_repair_queues(tds, seed_cells, &mut queues, &mut stats)?;
@@ -378,6 +385,12 @@ where
                 message: e.to_string(),
             })?;
         new_cells.push(cell_key);
+        #[cfg(delaunay_verif)]
+        if crate::verif::fail::hit("flip.cell_inserted") {
+            return Err(FlipError::TdsMutation {
+                message: "verif: injected failure at flip.cell_inserted".to_string(),
+            });
+        }
     }
 
     let boundary_facets =
@@ -389,6 +402,12 @@ where
         .map_err(|e| FlipError::NeighborWiring {
             message: e.to_string(),
         })?;
+    #[cfg(delaunay_verif)]
+    if crate::verif::fail::hit("flip.boundary") {
+        return Err(FlipError::NeighborWiring {
+            message: "verif: injected failure at flip.boundary".to_string(),
+        });
+    }
 
     wire_cavity_neighbors(
         tds,
@@ -400,12 +419,24 @@ where
         message: e.to_string(),
     })?;
 
+    #[cfg(delaunay_verif)]
+    if crate::verif::fail::hit("flip.wired") {
+        return Err(FlipError::NeighborWiring {
+            message: "verif: injected failure at flip.wired".to_string(),
+        });
+    }
     tds.remove_cells_by_keys(removed_cells);
     tds.normalize_coherent_orientation()
         .map_err(|e| FlipError::TdsMutation {
             message: e.to_string(),
         })?;
 
+    #[cfg(delaunay_verif)]
+    if crate::verif::fail::hit("flip.normalized") {
+        return Err(FlipError::TdsMutation {
+            message: "verif: injected failure at flip.normalized".to_string(),
+        });
+    }
     debug_assert!(
         tds.is_coherently_oriented(),
         "TDS coherent orientation invariant violated after bistellar flip (k={k_move}, direction={direction:?})",
@@ -690,6 +721,14 @@ where
         .get(&context.signature)
         .copied()
         .unwrap_or(0);
+    #[cfg(delaunay_verif)]
+    let repeats = if crate::verif::knob::is_set("repair.max_repeat_signature")
+        && repeats >= crate::verif::knob::get("repair.max_repeat_signature", MAX_REPEAT_SIGNATURE)
+    {
+        repeats.max(MAX_REPEAT_SIGNATURE)
+    } else {
+        repeats
+    };
     if repeats >= MAX_REPEAT_SIGNATURE {
         if repair_trace_enabled() {
             let removed_details: Vec<_> = context
@@ -2347,6 +2386,12 @@ where
         return Err(FlipError::UnsupportedDimension { dimension: D });
     }
 
+    #[cfg(delaunay_verif)]
+    if crate::verif::fail::hit("flip.k1_inverse.entry") {
+        return Err(FlipError::InvalidFlipContext {
+            message: "verif: injected decline at flip.k1_inverse.entry".to_string(),
+        });
+    }
     let context = build_k1_inverse_context(tds, vertex_key)?;
     let info = apply_bistellar_flip_dynamic(tds, kernel, D + 1, &context)?;
 
@@ -2389,6 +2434,13 @@ where
 
     let mut stats = DelaunayRepairStats::default();
     let mut diagnostics = RepairDiagnostics::default();
+    #[cfg(delaunay_verif)]
+    {
+        crate::verif::tick::tick("repair.attempt");
+        if crate::verif::fail::hit("repair.attempt.nonconvergent") {
+            return Err(non_convergent_error(max_flips, &stats, &diagnostics, config));
+        }
+    }
     let mut queue: VecDeque<(FacetHandle, u64)> = VecDeque::new();
     let mut queued: FastHashSet<u64> = FastHashSet::default();
     let mut facet_handles: FastHashMap<u64, FacetHandle> = FastHashMap::default();
@@ -2516,6 +2568,19 @@ where
         };
         stats.flips_performed += 1;
         diagnostics.record_flip_signature(signature);
+        #[cfg(delaunay_verif)]
+        {
+            crate::verif::tick::tick("repair.flip");
+            if crate::verif::fail::hit("repair.after_flip") {
+                return Err(FlipError::TdsMutation {
+                    message: "verif: injected failure after applied flip".to_string(),
+                }
+                .into());
+            }
+            if crate::verif::fail::hit("repair.budget") {
+                return Err(non_convergent_error(max_flips, &stats, &diagnostics, config));
+            }
+        }
 
         if stats.flips_performed > max_flips {
             return Err(non_convergent_error(
@@ -2897,6 +2962,12 @@ where
     U: DataType,
     V: DataType,
 {
+    #[cfg(delaunay_verif)]
+    if crate::verif::fail::hit("repair.postcondition.fail") {
+        return Err(DelaunayRepairError::PostconditionFailed {
+            message: "verif: injected postcondition failure".to_string(),
+        });
+    }
     verify_repair_postcondition_locally(tds, kernel, seed_cells)
 }
 
@@ -3608,6 +3679,10 @@ fn should_emit_ridge_debug() -> bool {
     current < limit
 }
 fn default_max_flips<const D: usize>(cell_count: usize) -> usize {
+    #[cfg(delaunay_verif)]
+    if crate::verif::knob::is_set("repair.max_flips") {
+        return crate::verif::knob::get("repair.max_flips", 0);
+    }
     // Flip budget strategy by dimension and build mode:
     //
     // - D<=2: use 4× budget in debug/test (2D flips are fast).
@@ -4014,6 +4089,19 @@ where
     }
     stats.flips_performed += 1;
     diagnostics.record_flip_signature(signature);
+    #[cfg(delaunay_verif)]
+    {
+        crate::verif::tick::tick("repair.flip");
+        if crate::verif::fail::hit("repair.after_flip") {
+            return Err(FlipError::TdsMutation {
+                message: "verif: injected failure after applied flip".to_string(),
+            }
+            .into());
+        }
+        if crate::verif::fail::hit("repair.budget") {
+            return Err(non_convergent_error(max_flips, stats, diagnostics, config));
+        }
+    }
     *last_applied_flip = Some(LastAppliedFlip::new(
         3,
         &context.removed_face_vertices,
@@ -4184,6 +4272,19 @@ where
     }
     stats.flips_performed += 1;
     diagnostics.record_flip_signature(signature);
+    #[cfg(delaunay_verif)]
+    {
+        crate::verif::tick::tick("repair.flip");
+        if crate::verif::fail::hit("repair.after_flip") {
+            return Err(FlipError::TdsMutation {
+                message: "verif: injected failure after applied flip".to_string(),
+            }
+            .into());
+        }
+        if crate::verif::fail::hit("repair.budget") {
+            return Err(non_convergent_error(max_flips, stats, diagnostics, config));
+        }
+    }
     *last_applied_flip = Some(LastAppliedFlip::new(
         D,
         &context.removed_face_vertices,
@@ -4349,6 +4450,19 @@ where
     }
     stats.flips_performed += 1;
     diagnostics.record_flip_signature(signature);
+    #[cfg(delaunay_verif)]
+    {
+        crate::verif::tick::tick("repair.flip");
+        if crate::verif::fail::hit("repair.after_flip") {
+            return Err(FlipError::TdsMutation {
+                message: "verif: injected failure after applied flip".to_string(),
+            }
+            .into());
+        }
+        if crate::verif::fail::hit("repair.budget") {
+            return Err(non_convergent_error(max_flips, stats, diagnostics, config));
+        }
+    }
     *last_applied_flip = Some(LastAppliedFlip::new(
         D - 1,
         &context.removed_face_vertices,
@@ -4517,6 +4631,19 @@ where
     }
     stats.flips_performed += 1;
     diagnostics.record_flip_signature(signature);
+    #[cfg(delaunay_verif)]
+    {
+        crate::verif::tick::tick("repair.flip");
+        if crate::verif::fail::hit("repair.after_flip") {
+            return Err(FlipError::TdsMutation {
+                message: "verif: injected failure after applied flip".to_string(),
+            }
+            .into());
+        }
+        if crate::verif::fail::hit("repair.budget") {
+            return Err(non_convergent_error(max_flips, stats, diagnostics, config));
+        }
+    }
     *last_applied_flip = Some(LastAppliedFlip::new(
         2,
         &context.removed_face_vertices,
